@@ -5,6 +5,7 @@ import CgtModel.Lemmas.WellFormed
 import CgtModel.Lemmas.Cost
 import CgtModel.Lemmas.Offsets
 import CgtModel.Props.C02
+import CgtModel.Props.Formulas
 /-! # C03 — allowable expenditure is conserved
 
 Statement: for every accepted ledger and security, the allowable cost of all disposal legs plus the
